@@ -11,6 +11,10 @@ Suites
   COMPARE-junkkey    a localization key equal to the generated key of a reference Junk
   ADD-<fmt>          ContentComparer.add for a missing file
   (accumulate)       one observer over several files: summary = sum of the per-file summaries
+  (project)          compareProjects on a generated l10n.toml project over one to four locales in
+                     ONE run (the configuration's filter is the observer's filter; missing files
+                     go through ContentComparer.add): summaries per locale and missing / obsolete
+                     keys per file by construction; implementation-only
 Oracle (implementation only): the expected missing / obsolete / changed / unchanged / keys
 sets and word counts follow from the edit script by construction, no parser involved.
 """
@@ -48,12 +52,44 @@ KEY_KEYS = ["accesskey", "commandkey", "open.Key", "Keyboard", "monkey", "key", 
 
 
 # ------------------------------------------------------------ generation ---
+EMPTY_OK = ("properties", "dtd", "ini", "android")     # formats with empty-valued records
+ATTR_NAMES = ["label", "tooltiptext", "placeholder", "title", "aria-label"]
+
+
+def rec(key, words, flags=(), attrs=()):
+    """an item of an edit script: ('rec', key, value words, flags, attributes);
+    flags: 'esc' (rendered with an escape, same logical value), 'spice' (checker bait);
+    attributes (Fluent only): ((name, words), ...)"""
+    return ("rec", key, list(words), frozenset(flags), tuple((n, tuple(w)) for n, w in attrs))
+
+
+def is_term(fmt, k):
+    return fmt == "ftl" and k.startswith("-")
+
+
+def rec_words(fmt, it):
+    """word count of a record by construction: the value; for a Fluent message also its
+    attributes (the attributes of a term are private and not counted)"""
+    n = len(it[2])
+    if fmt == "ftl" and not is_term(fmt, it[1]):
+        n += sum(len(w) for _, w in it[4])
+    return n
+
+
+def logical(fmt, it):
+    """what decides changed / unchanged by construction: the value; for a Fluent message
+    also its attributes (a term's attributes are ignored by design)"""
+    if fmt == "ftl" and not is_term(fmt, it[1]):
+        return (list(it[2]), it[4])
+    return (list(it[2]), ())
+
+
 def words_of(rng, avoid=None):
     for _ in range(20):
         w = [rng.choice(WORDS) for _ in range(rng.randint(1, 4))]
         if w != avoid:
             return w
-    return (avoid or []) + ["more"]
+    return list(avoid or []) + ["more"]
 
 
 def fresh_key(rng, fmt, used):
@@ -63,6 +99,8 @@ def fresh_key(rng, fmt, used):
             base += str(rng.randint(0, 30))
         if fmt == "ftl":
             base = base.replace(".", "-")
+            if rng.random() < 0.2:
+                base = "-" + base                       # a term
         if fmt == "po":
             ws = base.replace(".", " ").split() + (words_of(rng) if rng.random() < 0.7 else [])
             k = (" ".join(ws), rng.choice([None, None, "ctx", "key"]))
@@ -73,9 +111,19 @@ def fresh_key(rng, fmt, used):
             return k
 
 
-def key_words(fmt, k):
-    """logical reference value of a record created for key k (po: the msgid)"""
-    return k[0].split() if fmt == "po" else None
+def fresh_record(rng, fmt, used):
+    """(key, value words, attributes) of a new record"""
+    k = fresh_key(rng, fmt, used)
+    if fmt == "po":
+        return k, k[0].split(), ()                      # the reference value is the msgid
+    words, attrs = words_of(rng), ()
+    if fmt == "ftl" and rng.random() < 0.4:
+        attrs = tuple((n, tuple(words_of(rng))) for n in rng.sample(ATTR_NAMES, rng.randint(1, 2)))
+        if not is_term(fmt, k) and rng.random() < 0.3:
+            words = []                                  # a message with attributes only
+    elif fmt in EMPTY_OK and rng.random() < 0.18:
+        words = []                                      # an empty value
+    return k, words, attrs
 
 
 def insert_junk(rng, items):
@@ -87,73 +135,98 @@ def insert_junk(rng, items):
         items.insert(i, ("junk",))
 
 
-def gen_case(rng, fmt, spicy=False):
-    """-> dict(ref=[items], l10n=[items]); an item is ('rec', key, words, flags) or ('junk',).
-    flags: set of 'esc' (rendered with an escape, same logical value), 'spice' (checker bait)"""
+def revalue(rng, fmt, k, w, attrs):
+    """a different value for the record: new words, possibly none where that is legal"""
+    if fmt == "ftl" and not w:
+        return []           # a Fluent value may not appear or vanish: that is a checker error (C08)
+    if w and fmt in EMPTY_OK and rng.random() < 0.15:
+        return []
+    return words_of(rng, w)
+
+
+def gen_ref(rng, fmt, spicy=False):
+    """-> (used keys, base records [(key, words, attrs)], reference items)"""
     used = set()
-    base = []
-    for _ in range(rng.choice([0, 1, 2, 3, 3, 4, 5, 6, 8])):
-        k = fresh_key(rng, fmt, used)
-        base.append((k, key_words(fmt, k) or words_of(rng)))
-    ref = [("rec", k, w, frozenset()) for k, w in base]
+    base = [fresh_record(rng, fmt, used) for _ in range(rng.choice([0, 1, 2, 3, 3, 4, 5, 6, 8]))]
+    ref = [rec(k, w, (), a) for k, w, a in base]
     if base and rng.random() < 0.25:                       # duplicate in the reference
-        k, w = rng.choice(base)
-        ref.insert(rng.randint(0, len(ref)), ("rec", k, key_words(fmt, k) or words_of(rng, w), frozenset()))
+        k, w, a = rng.choice(base)
+        ref.insert(rng.randint(0, len(ref)),
+                   rec(k, w if fmt == "po" else revalue(rng, fmt, k, w, a), (), a))
     if rng.random() < 0.2:
         insert_junk(rng, ref)
+    if spicy and fmt != "po":
+        for i in range(len(ref)):
+            if ref[i][0] == "rec" and rng.random() < 0.4:
+                ref[i] = rec(ref[i][1], ref[i][2], ["spice"], ref[i][4])
+    return used, base, ref
+
+
+def gen_l10n(rng, fmt, used, base, spicy=False):
+    """the edit script: drop, keep, re-value (value, or one attribute only), escape-equivalent,
+    add, reorder, duplicate, junk"""
+    used = set(used)
     l10n = []
-    for k, w in base:
+    for k, w, a in base:
         r = rng.random()
         if r < 0.25:
             continue                                       # drop
         if r < 0.55:
-            l10n.append(("rec", k, list(w), frozenset()))  # keep
-        elif r < 0.63 and fmt == "properties":
-            l10n.append(("rec", k, list(w), frozenset(["esc"])))
+            l10n.append(rec(k, w, (), a))                  # keep
+        elif r < 0.63 and fmt == "properties" and w:
+            l10n.append(rec(k, w, ["esc"], a))
+        elif a and (not w or rng.random() < 0.5):
+            i = rng.randrange(len(a))                      # re-value one attribute only
+            a2 = a[:i] + ((a[i][0], tuple(words_of(rng, list(a[i][1])))),) + a[i + 1:]
+            l10n.append(rec(k, w, (), a2))
         else:
-            flags = frozenset(["spice"]) if spicy and rng.random() < 0.5 else frozenset()
-            l10n.append(("rec", k, words_of(rng, w), flags))   # re-value
+            flags = ["spice"] if spicy and rng.random() < 0.5 else []
+            l10n.append(rec(k, revalue(rng, fmt, k, w, a), flags, a))   # re-value
     for _ in range(rng.choice([0, 0, 1, 1, 2, 3])):        # add
-        k = fresh_key(rng, fmt, used)
-        l10n.append(("rec", k, words_of(rng), frozenset()))
+        k, w, a = fresh_record(rng, fmt, used)
+        l10n.append(rec(k, w if fmt != "po" else words_of(rng), (), a))
     if rng.random() < 0.4:
         rng.shuffle(l10n)                                  # reorder
     if l10n and rng.random() < 0.25:                       # duplicate in the localization
         it = rng.choice(l10n)
-        w = list(it[2]) if rng.random() < 0.4 else words_of(rng, it[2])
-        l10n.insert(rng.randint(0, len(l10n)), ("rec", it[1], w, frozenset()))
+        w = list(it[2]) if rng.random() < 0.4 else revalue(rng, fmt, it[1], it[2], it[4])
+        l10n.insert(rng.randint(0, len(l10n)), rec(it[1], w, (), it[4]))
     if rng.random() < 0.25:
         insert_junk(rng, l10n)
-    if spicy and ref and fmt != "po":
-        for i in range(len(ref)):
-            if ref[i][0] == "rec" and rng.random() < 0.4:
-                ref[i] = ("rec", ref[i][1], ref[i][2], frozenset(["spice"]))
-    return {"format": fmt, "ref": ref, "l10n": l10n}
+    return l10n
+
+
+def gen_case(rng, fmt, spicy=False):
+    """-> dict(format, ref=[items], l10n=[items])"""
+    used, base, ref = gen_ref(rng, fmt, spicy)
+    return {"format": fmt, "ref": ref, "l10n": gen_l10n(rng, fmt, used, base, spicy)}
+
+
+def items_json(items):
+    return [["junk"] if it[0] == "junk" else
+            ["rec", it[1], it[2], sorted(it[3]), [[n, list(w)] for n, w in it[4]]] for it in items]
+
+
+def items_load(js):
+    def key(k):
+        return tuple(k) if isinstance(k, list) else k
+    return [("junk",) if it[0] == "junk" else rec(key(it[1]), it[2], it[3], it[4]) for it in js]
 
 
 def script_json(case):
-    def item(it):
-        return ["junk"] if it[0] == "junk" else ["rec", it[1], it[2], sorted(it[3])]
-    return {"format": case["format"], "ref": [item(i) for i in case["ref"]],
-            "l10n": [item(i) for i in case["l10n"]]}
+    return {"format": case["format"], "ref": items_json(case["ref"]), "l10n": items_json(case["l10n"])}
 
 
 def script_load(js):
-    def key(k):
-        return tuple(k) if isinstance(k, list) else k
-
-    def item(it):
-        return ("junk",) if it[0] == "junk" else ("rec", key(it[1]), list(it[2]), frozenset(it[3]))
-    return {"format": js["format"], "ref": [item(i) for i in js["ref"]],
-            "l10n": [item(i) for i in js["l10n"]]}
+    return {"format": js["format"], "ref": items_load(js["ref"]), "l10n": items_load(js["l10n"])}
 
 
 # -------------------------------------------------------------- rendering ---
-SPICE = {"properties": " %S <br/> <b>bold</b> \ufffd", "dtd": " <b>bold<br/>text</b> &amp; \ufffd",
-         "ini": " <br> \ufffd", "ftl": " { $n } \ufffd\n    .a = x\n    .b = y", "android": " it\\'s \ufffd %1$s",
-         "po": " \ufffd <br>"}
-SPICE_L10N = {"properties": " %d \ufffd", "dtd": " <b>open &foo; \ufffd", "ini": " \ufffd",
-              "ftl": " { $m } \ufffd\n    .extra = attr", "android": " it's \ufffd", "po": " \ufffd"}
+SPICE = {"properties": " %S <br/> <b>bold</b> �", "dtd": " <b>bold<br/>text</b> &amp; �",
+         "ini": " <br> �", "ftl": " { $n } �\n    .a = x\n    .b = y", "android": " it\\'s � %1$s",
+         "po": " � <br>"}
+SPICE_L10N = {"properties": " %d �", "dtd": " <b>open &foo; �", "ini": " �",
+              "ftl": " { $m } �\n    .extra = attr", "android": " it's �", "po": " �"}
 
 
 def value_text(fmt, it, side):
@@ -182,13 +255,16 @@ def render(fmt, items, side):
             continue
         k, v = it[1], value_text(fmt, it, side)
         if fmt == "properties":
-            out.append(f"{k} = {v}\n")
+            # an empty value: the separator directly (or after one blank) followed by the line feed
+            out.append(f"{k} = {v}\n" if v else f"{k} ={' ' if n % 2 else ''}\n")
         elif fmt == "dtd":
             out.append(f'<!ENTITY {k} "{v}">\n')
         elif fmt == "ini":
             out.append(f"{k}={v}\n")
         elif fmt == "ftl":
-            out.append(f"{k} = {v}\n")
+            out.append(f"{k} = {v}\n" if v else f"{k} =\n")
+            for name, w in it[4]:
+                out.append("    .%s = %s\n" % (name, " ".join(w)))
         elif fmt == "android":
             out.append(f'  <string name="{k}">{v}</string>\n')
         else:
@@ -213,6 +289,7 @@ def contains_key(k):
 
 def expected(case, verdicts):
     """the statement of C03 from the edit script alone"""
+    fmt = case["format"]
     ref_last, l10n_last = {}, {}
     for it in case["ref"]:
         if it[0] == "rec":
@@ -224,7 +301,7 @@ def expected(case, verdicts):
     sets = {"missing": set(), "report": set(), "obsolete": set(), "changed": set(),
             "unchanged": set(), "keys": set(), "ignored": set()}
     for k, it in ref_last.items():
-        w = len(it[2])
+        w = rec_words(fmt, it)
         if k not in l10n_last:
             v = verdicts.get(k, "error")
             if v == "error":
@@ -236,7 +313,8 @@ def expected(case, verdicts):
                 sets["ignored"].add(k)
         elif contains_key(k):
             sets["keys"].add(k)
-        elif it[2] == l10n_last[k][2] and "spice" not in l10n_last[k][3] and "spice" not in it[3]:
+        elif logical(fmt, it) == logical(fmt, l10n_last[k]) and "spice" not in l10n_last[k][3] \
+                and "spice" not in it[3]:
             sets["unchanged"].add(k)
             exp["unchanged_w"] += w
         else:
@@ -350,16 +428,22 @@ class Tables:
                 for i, e in enumerate(ents):
                     out[(side, i)] = ids.setdefault(e.val, len(ids))
             return out
-        for i, e in enumerate(self.ref):
-            out[(0, i)] = i
-        for j, l in enumerate(self.l10n):
-            out[(1, j)] = 1000 + j
-            if isinstance(l, parser.Junk):
-                continue
-            for i, r in enumerate(self.ref):
-                if not isinstance(r, parser.Junk) and r.key == l.key and r.equals(l):
-                    out[(1, j)] = out[(0, i)]
-                    break
+        reps = {}                       # key -> [(representative entity, class id)]
+        n = 0
+        for side, ents in ((0, self.ref), (1, self.l10n)):
+            for i, e in enumerate(ents):
+                cls = None
+                if not isinstance(e, parser.Junk):
+                    for rep, c in reps.setdefault(e.key, []):
+                        if rep.equals(e):
+                            cls = c
+                            break
+                if cls is None:
+                    cls = n
+                    n += 1
+                    if not isinstance(e, parser.Junk):
+                        reps[e.key].append((e, cls))
+                out[(side, i)] = cls
         return out
 
     def canon_note(self, category, data):
@@ -570,6 +654,16 @@ def suite_compare(chk, work, model, fmt, n, spicy):
         tabs.append((tables, merge))
         descs.append(desc)
         chk.hist(f"{fmt}_ref_entities", min(len(tables.ref), 9))
+        for side in ("ref", "l10n"):
+            its = case[side]
+            if any(a[0] == "rec" and b[0] == "rec" and not a[2] for a, b in zip(its, its[1:])):
+                chk.hist("empty_value_followed_by_record", f"{fmt}-{side}")
+        if fmt == "ftl":
+            last = {it[1]: it for it in case["ref"] if it[0] == "rec"}
+            for it in case["l10n"]:
+                if it[0] == "rec" and it[1] in last and it[2] == last[it[1]][2] \
+                        and it[4] != last[it[1]][4]:
+                    chk.hist("ftl_attribute_only_change", "term" if is_term(fmt, it[1]) else "message")
         if res[0] == 0:
             for k, v in zip(STATS, res[1][0]):
                 if v and not k.endswith("_w"):
@@ -596,8 +690,8 @@ def suite_small(chk, work, model):
     reqs, impl, tabs, descs = [], [], [], []
     for i, l in enumerate(seqs):
         for j, r in enumerate(seqs):
-            ref = [("rec", k, ["v%d" % (n % 2)], frozenset()) for n, k in enumerate(l)]
-            l10n = [("rec", k, ["v%d" % ((n + i + j) % 2)], frozenset()) for n, k in enumerate(r)]
+            ref = [rec(k, ["v%d" % (n % 2)]) for n, k in enumerate(l)]
+            l10n = [rec(k, ["v%d" % ((n + i + j) % 2)]) for n, k in enumerate(r)]
             case = {"format": "properties", "ref": ref, "l10n": l10n}
             merge = (i + j) % 2 == 0
             req, res, tables, desc = one_pair(chk, work, "properties", render("properties", ref, "ref"),
@@ -663,7 +757,7 @@ def add_one(chk, work, fmt, case, fv):
     det = list(js["details"].values())
     det = det[0] if det else []
     recs = [it for it in case["ref"] if it[0] == "rec"]
-    want = [] if fv == "ignore" else [[len(recs), sum(len(it[2]) for it in recs)]]
+    want = [] if fv == "ignore" else [[len(recs), sum(rec_words(fmt, it) for it in recs)]]
     want_det = [] if fv == "ignore" else [{"missingFile": fv or "error"}]
     if res != want or det != want_det:
         chk.fail(f"{fmt}-add-file", desc, {"summary": summ, "details": det, "expected": want})
@@ -733,6 +827,113 @@ def suite_accumulate(chk, work, n):
                      {"summary": bad[0], "sum of per-file summaries": bad[1]})
 
 
+# ------------------------------------------------------------ projects ---
+PROJECT_FILES = [("browser/a.properties", "properties"), ("browser/b.dtd", "dtd"),
+                 ("toolkit/c.ini", "ini"), ("toolkit/d.ftl", "ftl"), ("e.po", "po")]
+PROJECT_LOCALES = ["de", "fr", "it", "ja", "pt-BR", "sr-Latn"]
+
+
+def flatten(details, prefix=""):
+    """Tree.toJSON() -> {path: [detail dicts]}"""
+    if isinstance(details, list):
+        return {prefix: details}
+    out = {}
+    for key, val in details.items():
+        out.update(flatten(val, key if not prefix else prefix + "/" + key))
+    return out
+
+
+def gen_project(rng):
+    """one l10n.toml, a reference tree, and for each of several locales an edit script per
+    file (or no file at all); JSON-able"""
+    locales = rng.sample(PROJECT_LOCALES, rng.choice([1, 2, 2, 3, 3, 4]))
+    files = {}
+    for rel, fmt in rng.sample(PROJECT_FILES, rng.randint(1, 3)):
+        used, base, ref = gen_ref(rng, fmt)
+        l10n = {}
+        for loc in locales:
+            l10n[loc] = None if rng.random() < 0.12 else items_json(gen_l10n(rng, fmt, used, base))
+        files[rel] = {"format": fmt, "ref": items_json(ref), "l10n": l10n}
+    return {"locales": locales, "files": files}
+
+
+def project_one(chk, work, spec):
+    """compareProjects over all locales of one configuration in one run; the summaries per
+    locale and the missing / obsolete keys per file follow from the edit scripts"""
+    from compare_locales.compare import compareProjects
+    from compare_locales.paths import TOMLParser
+    root = os.path.join(work.dir, "project")
+    shutil.rmtree(root, ignore_errors=True)
+    locales = spec["locales"]
+    os.makedirs(os.path.join(root, "l10n"))
+    write(os.path.join(root, "l10n.toml"),
+          'basepath = "."\nlocales = [%s]\n[[paths]]\n    reference = "reference/**"\n'
+          '    l10n = "l10n/{locale}/**"\n' % ", ".join('"%s"' % loc for loc in locales))
+    want = {loc: dict.fromkeys(["errors", "warnings"] + STATS, 0) for loc in locales}
+    want_details = {}
+    for rel, f in spec["files"].items():
+        fmt, ref = f["format"], items_load(f["ref"])
+        path = os.path.join(root, "reference", rel)
+        os.makedirs(os.path.dirname(path), exist_ok=True)
+        write(path, render(fmt, ref, "ref"))
+        for loc in locales:
+            w = want[loc]
+            if f["l10n"][loc] is None:                  # missing file: ContentComparer.add
+                recs = [it for it in ref if it[0] == "rec"]
+                w["missing"] += len(recs)
+                w["missing_w"] += sum(rec_words(fmt, it) for it in recs)
+                want_details[f"{loc}/{rel}"] = "missingFile"
+                continue
+            l10n = items_load(f["l10n"][loc])
+            path = os.path.join(root, "l10n", loc, rel)
+            os.makedirs(os.path.dirname(path), exist_ok=True)
+            write(path, render(fmt, l10n, "l10n"))
+            exp, sets, plain, exp_err, exp_warn = expected({"format": fmt, "ref": ref, "l10n": l10n}, {})
+            for k in STATS:
+                w[k] += exp[k]
+            w["errors"] += exp_err
+            w["warnings"] += exp_warn
+            want_details[f"{loc}/{rel}"] = (sorted(map(str, sets["missing"])),
+                                            sorted(map(str, sets["obsolete"])))
+    reset_junk()
+    pc = TOMLParser().parse(os.path.join(root, "l10n.toml"))
+    try:
+        observers = compareProjects([pc], list(locales), os.path.join(root, "l10n"))
+    except Exception as e:  # noqa
+        chk.fail("project-raised", {"project": spec}, repr(e))
+        return
+    for name, obs in (("project", list(observers)[0]), ("total", observers)):
+        data = obs.toJSON()
+        for loc in sorted(locales):
+            summ = data["summary"].get(loc, {})
+            got = {k: summ.get(k, 0) for k in want[loc]}
+            if got != want[loc]:
+                chk.fail("project-summary", {"project": spec},
+                         {"observer": name, "locale": loc, "summary": got, "expected": want[loc],
+                          "locales in this run": sorted(locales)})
+                return
+        flat = flatten(data["details"])
+        for path, exp in sorted(want_details.items()):
+            items = flat.get(path, [])
+            if exp == "missingFile":
+                got = "missingFile" if items == [{"missingFile": "error"}] else items
+            else:
+                got = (sorted(str(d["missingEntity"]) for d in items if "missingEntity" in d),
+                       sorted(str(d["obsoleteEntity"]) for d in items if "obsoleteEntity" in d))
+            if got != exp:
+                chk.fail("project-details", {"project": spec},
+                         {"observer": name, "file": path, "reported": got, "expected": exp})
+                return
+
+
+def suite_project(chk, work, n):
+    for _ in range(n):
+        spec = gen_project(chk.rng)
+        chk.count(("project", json.dumps(spec, sort_keys=True)))
+        chk.hist("project_locales_in_one_run", len(spec["locales"]))
+        project_one(chk, work, spec)
+
+
 def suite_keyname(chk, model):
     from compare_locales.compare.content import ContentComparer
     rng = chk.rng
@@ -762,6 +963,7 @@ def run(chk, runner_ok):
         suite_small(chk, work, model)
         suite_junkkey(chk, work, model)
         suite_accumulate(chk, work, chk.n(60, 400))
+        suite_project(chk, work, chk.n(150, 1200))
         for fmt in FORMATS:
             suite_compare(chk, work, model, fmt, chk.n(1500, 8000), spicy=False)
             suite_compare(chk, work, model, fmt, chk.n(500, 3000), spicy=True)
@@ -793,6 +995,9 @@ def replay(chk, path):
             elif "add_script" in c:
                 res, _ = add_one(chk, work, c["format"], script_load(c["add_script"]), c["file_verdict"])
                 print("case add", json.dumps({k: c[k] for k in ("format", "ref", "file_verdict")}), "->", res)
+            elif "project" in c:
+                project_one(chk, work, c["project"])
+                print("case project", c["project"]["locales"], sorted(c["project"]["files"]))
             elif "scripts" in c:
                 bad = accumulate_one(chk, work, [script_load(x) for x in c["scripts"]])
                 print("case accumulate", [x["format"] for x in c["scripts"]], "->", bad)
